@@ -132,7 +132,7 @@ class FactoredInference:
         c0 = c
         l = sigma/L
         for k in range(1, self.iters+1):
-            a = (np.sqrt((c*l)**2 + 4*c*l) - l*c) / 2
+            a = 2*c*l / (np.sqrt((c*l)**2 + 4*c*l) + l*c)
             y = (1 - a)*x + a*z
             c *= (1-a)
             _, g = self._marginal_loss(y) 
